@@ -799,6 +799,21 @@ func genEnc(o *lib.Opts, r *lib.Rng) {
 			s[strconv.Itoa(i)] = ""
 		}
 		emitEnc("huge-count", "b", ttheader.EncodeParam{StrInfo: s}, 0)
+		delete(s, gdpr) // exactly 65536 string entries, no token: uint16(len) would be 0
+		emitEnc("huge-count", "d", ttheader.EncodeParam{StrInfo: s}, 0)
+		// one more entry than the limit admits (2+3+16383*4 > 65536: size error); thorough: a 4000-entry round trip.
+		// (16382 entries, the largest admissible count, round-trips on the real code and in the model — replayed
+		// once, see notes/C06.md; the List-based driver needs 60 s for it, so it is not generated.)
+		for _, cnt := range []int{4000, 16383} {
+			if o.Tier != "thorough" && cnt == 4000 {
+				continue
+			}
+			mi := map[uint16]string{}
+			for i := 0; i < cnt; i++ {
+				mi[uint16(i*4)] = ""
+			}
+			emitEnc("max-count", "b", ttheader.EncodeParam{IntInfo: mi}, 1)
+		}
 	}
 	// 5b. sizes only (counting writer): around the limit and well beyond what a frame in memory would allow
 	for _, L := range []int{0, 1, 65525, 65526, 65527, 65535, 65536, 1 << 20, 1<<24 + 3} {
